@@ -1287,7 +1287,7 @@ def check(ctx):
     ]
     for lab, defs in fixed:
         mods.append((lab, new_module(defs)))
-    n_gen = 220 if thorough else 30
+    n_gen = 180 if thorough else 30
     for k in range(n_gen):
         sub = random.Random(rng.getrandbits(64))
         kw = {}
@@ -1446,6 +1446,8 @@ def check(ctx):
         if lab.startswith("api-") or rng.random() < (0.9 if thorough else 0.6):
             vs = variants(rng, b)
             rng.shuffle(vs)
+            if len(b) > 20000:
+                vs = vs[:2]          # 16K-element modules: each variant costs seconds in the driver
             for vl, vb in vs[: (len(vs) if thorough else 5)][: per * 5]:
                 inputs.append((f"{lab}:{vl}", vb))
     canon_queries = []
